@@ -42,18 +42,19 @@ const prop = "C03"
 
 // known-finding ids (see /verif/findings.d/c03.json)
 const (
-	fForElse   = "C03-vfor-on-else-member"               // chosen v-else-if / v-else member carrying v-for renders nothing
-	fForIf     = "C03-vfor-on-if-member"                 // falsy v-if member carrying v-for: following v-else-if (and its v-else) dropped
-	fForSkip   = "C03-vfor-member-after-chosen-branch"   // v-else-if chosen; a later member with v-for runs as a loop of its own and lets the v-else render too
-	fForIfPre  = "C03-vfor-on-if-member-vpre-tail"       // truthy v-if member carrying v-for: a later member with v-pre is emitted too
-	fClassNot  = "C03-class-object-negation-no-fallback" // :class="{k: !x}" has no negation workaround for non-bool / stack-only operands
-	fClassSne  = "C03-class-object-strict-inequality"    // :class="{k: a !== b}" leaves k out where v-if="a !== b" holds
-	fClassNil  = "C03-class-object-nil-adds-class"       // :class="{k: x}" adds k for nil / undefined x
-	fClassStr  = "C03-class-object-string-reparsed"      // :class="{k: x}" drops k for strings like "0", " "
-	fShowChain = "C03-vshow-on-chain-member-ignored"     // v-show on an element that also carries v-if / v-else(-if) is ignored
+	fForElse    = "C03-vfor-on-else-member"                 // chosen v-else-if / v-else member carrying v-for renders nothing
+	fForIf      = "C03-vfor-on-if-member"                   // falsy v-if member carrying v-for: following v-else-if (and its v-else) dropped
+	fForSkip    = "C03-vfor-member-after-chosen-branch"     // v-else-if chosen; a later member with v-for runs as a loop of its own and lets the v-else render too
+	fForIfPre   = "C03-vfor-on-if-member-vpre-tail"         // truthy v-if member carrying v-for: a later member with v-pre is emitted too
+	fClassNot   = "C03-class-object-negation-no-fallback"   // :class="{k: !x}" has no negation workaround for non-bool / stack-only operands
+	fBuiltinVar = "C03-builtin-named-variable-next-to-call" // a variable named first / last / sum ... next to a template function call is read as the expr-lang built-in
+	fClassSne   = "C03-class-object-strict-inequality"      // :class="{k: a !== b}" leaves k out where v-if="a !== b" holds
+	fClassNil   = "C03-class-object-nil-adds-class"         // :class="{k: x}" adds k for nil / undefined x
+	fClassStr   = "C03-class-object-string-reparsed"        // :class="{k: x}" drops k for strings like "0", " "
+	fShowChain  = "C03-vshow-on-chain-member-ignored"       // v-show on an element that also carries v-if / v-else(-if) is ignored
 )
 
-var allFindings = []string{fClassSne, fClassNot, fForElse, fForIf, fForIfPre, fForSkip, fClassNil, fClassStr, fShowChain}
+var allFindings = []string{fClassSne, fBuiltinVar, fClassNot, fForElse, fForIf, fForIfPre, fForSkip, fClassNil, fClassStr, fShowChain}
 
 func openFindings() map[string]bool {
 	f := kf.Load()
@@ -75,8 +76,11 @@ func render(tpl string, data map[string]any, entry string) (string, error) {
 		for name, src := range slotComponents {
 			files[name] = src
 		}
+		for name, src := range compFiles {
+			files[name] = src
+		}
 		fsys := memfs.FromMap(files)
-		err = vuego.NewFS(fsys).Load("page.vuego").Fill(data).Render(context.Background(), &b)
+		err = vuego.NewFS(fsys, vuego.WithComponents()).Load("page.vuego").Fill(data).Render(context.Background(), &b)
 	default:
 		err = vuego.New().Fill(data).RenderString(context.Background(), &b, tpl)
 	}
@@ -148,6 +152,11 @@ func classify(c Case) (bool, []string) {
 	add(st.shadowed, "cond-on-loop-var-shadowing-global")
 	add(st.shadowOpp, "shadowed-global-has-opposite-truthiness")
 	add(st.shadowNil, "nil-item-shadows-truthy-global")
+	add(st.comps > 0, "compact-template-root-component")
+	add(st.compShort, "component-as-shorthand-tag")
+	for v := range st.compVariants {
+		add(true, "component-variant:"+v)
+	}
 	add(st.slotted > 0, "slot-content-used-k-times")
 	add(st.slotChain, "chain-in-slot-content")
 	add(st.slotTwice, "slot-used-twice-per-item")
@@ -181,7 +190,7 @@ func replay(kind string, raw json.RawMessage) error {
 	switch kind {
 	case "table", "value":
 		return run.Decode(raw, checkTruth)
-	default: // "shape", "slot", "scope", "nest"
+	default: // "shape", "slot", "scope", "comp", "nest"
 		return run.Decode(raw, check)
 	}
 }
@@ -301,6 +310,23 @@ func TestProp(t *testing.T) {
 	})
 	if lfailed == 0 {
 		rec.Exhaustive(fmt.Sprintf("slot content: chain (0..2 v-else-if, optional v-else; plain, one member with v-for, one template member, one later member with v-pre) supplied to a component that uses its slot once / twice per item of a list holding all 2^n assignments ascending / descending, conditions on the scoped slot prop (%d cases)", nl))
+	}
+
+	// ---- components written compactly with a <template> root, as include and as shorthand tag
+	nc, cfailed := 0, 0
+	enumComp(func(c Case) bool {
+		nc++
+		if nc%shards != shard {
+			return true
+		}
+		nt, cls := classify(c)
+		if !run.Each(rec, "comp", c, nt, cls, check) {
+			cfailed++
+		}
+		return cfailed < 5
+	})
+	if cfailed == 0 {
+		rec.Exhaustive(fmt.Sprintf("components: {compact <template> root around a 3-member chain, the same with :require, with line breaks, without wrapper, around a 2-member chain, around one element} x {<template include>, shorthand tag} x 4 assignments of the two props x {top, div, v-for body} x 2 separators, each component used twice per case (%d cases)", nc))
 	}
 
 	// ---- stale-scope placements: chains / probes in a loop body that follows an include with 9..12 props
